@@ -1,11 +1,59 @@
-import Nstd.Codec.Model
+import Nstd.Codec.LemmasUtf8
+/-!
+  Property C18 — text codecs and numeric conversions are exact inverses and bounds-safe.
+  Only the property theorems (and non-vacuity examples); every `theorem` here is an
+  obligation and is axiom-audited on every run.  All statements are over the model of
+  `Nstd/Codec/Model.lean`, whose tables / masks / range tests are the definitions generated
+  from the current sources (`Nstd.Generated.Codec`).
+-/
 namespace Nstd.Codec
 open Nstd.Generated.Codec
 
-/-- `Unicode::length` yields 0..4 for every byte value (it indexes `utf8Offsets` and bounds the reads of the decoders) -/
-theorem length_le_four (b : Nat) : utf8Length b ≤ 4 := by
-  unfold utf8Length
-  repeat' split
-  all_goals omega
+/-! ## UTF-8 -/
+
+/-- `Unicode::toString(cp)` is the RFC 3629 encoding of `cp`, for every code point up to U+10FFFF
+    (surrogates D800..DFFF: the generalized three byte form, which is what the code emits). -/
+theorem utf8_agrees (cp : Nat) (h : cp < 0x110000) : toString cp = Spec.utf8 cp := by
+  unfold toString
+  rw [append_eq cp h]
+
+/-- above U+10FFFF nothing is appended (`append` returns false), for every `uint32` value -/
+theorem utf8_rejects_above (cp : Nat) (h : 0x110000 ≤ cp) (h32 : cp < 2 ^ 32) : toString cp = [] := by
+  unfold toString
+  rw [append_none cp h (Nat.lt_trans h32 (by decide))]
+
+/-- `Unicode::fromString(Unicode::toString(cp)) = cp` for all 1,114,112 code points
+    (by range lemmas, not by enumeration); no read leaves the string. -/
+theorem utf8_roundtrip (cp : Nat) (h : cp < 0x110000) :
+    fromString (toString cp) (toString cp).length = .ok cp := by
+  rw [utf8_agrees cp h]
+  exact decode_spec cp h
+
+/-- `Unicode::length(char)` touches no memory; its value is 0..4 for EVERY byte value, hence the
+    read `utf8Offsets[reqLen]` of `fromString` is inside the 5-entry table. -/
+theorem length_no_oob (b : Nat) : utf8Length b ≤ 4 ∧ ∃ v, rd utf8Offsets (utf8Length b) = .ok v :=
+  ⟨utf8Length_le b, offsets_ok _ (utf8Length_le b)⟩
+
+/-- `Unicode::fromString(ch, len)` never reads outside `[ch, ch+len)` (nor outside `utf8Offsets`),
+    for ARBITRARY bytes and every range lying inside the memory block. -/
+theorem fromString_no_oob (mem : List Nat) (len : Nat) (hl : len ≤ mem.length) :
+    fromString mem len ≠ .oob := by
+  obtain ⟨v, hv⟩ := fromString_ok mem len hl
+  rw [hv]; intro h; cases h
+
+/-- `Unicode::isValid(ch, len)` never reads outside `[ch, ch+len)`, for ARBITRARY bytes and every range. -/
+theorem isValid_no_oob (mem : List Nat) (len : Nat) (hl : len ≤ mem.length) :
+    isValid mem len ≠ .oob := by
+  obtain ⟨v, hv⟩ := isValidLoop_ok mem len hl len 0 len (by omega) (by omega)
+  unfold isValid
+  rw [hv]; intro h; cases h
+
+/- non-vacuity / the model does fault when a read leaves the range -/
+example : fromString [0xE2, 0x82, 0xAC] 3 = .ok 0x20AC := by decide
+example : fromString [0xE2, 0x82] 3 = .oob := by decide          -- a caller lying about the length faults
+example : isValid [0xF0, 0x9F, 0x98, 0x80, 0x41] 5 = .ok true := by
+  simp [isValid, isValidLoop, rdR, rd, utf8Length]
+example : isValid [0xF0, 0x9F, 0x98] 3 = .ok false := by simp [isValid, isValidLoop, rdR, rd, utf8Length]  -- truncated: rejected without reading on
+example : toString 0x20AC = [0xE2, 0x82, 0xAC] := by decide
 
 end Nstd.Codec
